@@ -58,7 +58,7 @@ ASSUMPTIONS = [
     't is a tuple of elements covering v element-wise, or t is a Callable[...] and v a function; names whose run-time value is a class '
     'are not checked (annotation convention)',
     'local functions are called by their own name (no aliasing, no escaping closures, no recursion); no with/try/global/lambda/'
-    'comprehension/starred targets (outside the quantified domain)',
+    'comprehension (outside the quantified domain)',
     'shapes of listed findings are excluded by construction (coverage.classes excluded:*); see replays/C19',
 ]
 LEVEL_TEXT = ('Randomised exploration of program x input space with CPython itself as the reference for run-time types; every explored '
@@ -68,6 +68,22 @@ LEVEL_NOTE = ('Trusted: CPython, the test-side truthful resolver and instrumente
               'programs total. Out of reach: programs > ~40 statements, user classes/attributes, aliasing of local functions, '
               'the shapes excluded for known findings.')
 
+# Exclusion flags (DESIGN 1.5): each keeps one confirmed defect shape of the unchanged tree out of the generated search; the
+# minimal failing input of each is a committed replay under replays/C19. Redirected draws are counted as excluded:<flag>.
+#   no_unknown_store_to_typed_name      a name never holds both a typed and an unknown-typed value: an assignment whose value the
+#                                       inference cannot type keeps the target's previous set, and the join of "typed" with
+#                                       "bound to unknown" (also: parameter of unknown type) is the typed set
+#                                       (F21_unknown_store_keeps_old_type, F21b_join_*, F21d_unknown_parameter_*)
+#   no_for_target_typed                 for-loop targets are never-typed names (F20_for_target_keeps_old_type)
+#   no_augassign_typed                  augmented assignment only on never-typed names (F20b_augassign_keeps_old_type)
+#   no_nonlocal_retype                  a local function rebinds a nonlocal name only with a value of the same exact type
+#                                       (F22_nonlocal_rebind_*: parent keeps the stale type; F31_nonlocal_read_at_loop_head_*: the
+#                                       function's own analysis forgets the closure type of names it rebinds)
+#   no_child_capture_of_nonlocal_bound  a function nested in one that rebinds nonlocal x does not read x (F21c_*)
+#   no_sibling_local_calls              a local function calls only its own children (F32_sibling_*, F32b_*)
+#   no_starred_target                   no starred unpacking targets (F34_starred_target_gets_element_type)
+#   no_store_to_var_captured_by_callee  a statement does not store to a variable captured by a local function it calls
+#                                       (F33_closure_types_taken_after_the_calling_statement)
 EXCL = ('no_unknown_store_to_typed_name', 'no_for_target_typed', 'no_augassign_typed', 'no_nonlocal_retype',
         'no_child_capture_of_nonlocal_bound', 'no_sibling_local_calls', 'no_starred_target',
         'no_store_to_var_captured_by_callee')
@@ -256,6 +272,8 @@ class TruthfulResolver(type_inference.Resolver):
     op = _UNOPS.get(type(node.op))
     if op is None:
       return None
+    if isinstance(node.op, ast.Not):
+      return {bool} if all(_in_universe(t) or t is tuple for t in opnd) else None
     out = set()
     for t in opnd:
       if not _in_universe(t):
@@ -359,9 +377,6 @@ class _Instr(ast.NodeTransformer):
   # expressions
   def _wrap(self, node, new):
     return ast.copy_location(_call('__o', ast.Constant(node._cid), new), node)
-
-  def generic_visit(self, node):
-    return super().generic_visit(node)
 
   def visit(self, node):
     if isinstance(node, ast.expr):
@@ -488,11 +503,12 @@ def _seg(src_lines, node):
     return '?'
 
 
-def run_case(case):
-  """Executes the oracle on {'src', 'inputs', 'opts'}. Returns (failures [(bucket, detail)], info)."""
+def run_case(case, expect_kn=None):
+  """Executes the oracle on {'src', 'inputs', 'opts'}. Returns (failures [(bucket, detail)], info).
+  expect_kn (generator self-check only): {'function.qualname:name': 'K'|'U'|'W'} predicted knownness of local names."""
   fails = []
   info = {'runs': 0, 'facts': 0, 'silent': 0, 'raised': [], 'multi': False, 'closure_facts': 0, 'closure_multi': False,
-          'shapes': set(), 'checked_kinds': set()}
+          'checked_kinds': set()}
   src = case['src']
   opts = case.get('opts') or {}
   top = opts.get('top', 'prog')
@@ -535,12 +551,6 @@ def run_case(case):
   # 3. compare
   owner = {}
   var_types = {}
-
-  def scan(f, qual):
-    for n in ast.walk(f):
-      owner.setdefault(n._cid, qual)
-    for n in ast.iter_child_nodes(f):
-      pass
 
   # owner function of every node (innermost)
   def assign_owner(node, qual):
@@ -617,6 +627,18 @@ def run_case(case):
                           'function': owner.get(cid), 'inferred': fmt_types(ts), 'observed': fmt_types(seen),
                           'not_covered': fmt_types(missing)}))
   info['multi'] = any(len(v) > 1 for v in var_types.values())
+  info['kn_mismatch'] = []
+  if expect_kn:
+    for st_ in ast.walk(fn):
+      if not isinstance(st_, ast.Assign):
+        continue
+      for n in ast.walk(st_):
+        if isinstance(n, ast.Name) and isinstance(n.ctx, ast.Store) and n._cid in obsv.obs:
+          exp = expect_kn.get('%s:%s' % (owner.get(n._cid), n.id))
+          has = anno.hasanno(n, anno.Static.TYPES)
+          if exp is not None and (exp == 'U') == has:
+            info['kn_mismatch'].append('%s line %d: %s predicted %s, %s' % (owner.get(n._cid), n.lineno, n.id, exp,
+                                                                          'typed' if has else 'untyped'))
   info['queries'] = resolver.queries
   return fails, info
 
@@ -714,6 +736,7 @@ class Gen(object):
     self.budget = cfg.get('budget', 14)
     self.max_fns = cfg.get('max_fns', 3)
     self.max_depth = cfg.get('max_depth', 3)
+    self.kn = {}            # 'qualname:name' -> predicted knownness of every local name
     self.forbid = set()     # names the functions called in the expression under construction must not capture
     self.called = []        # FnInfo of local functions called by the statement under construction
 
@@ -1054,7 +1077,16 @@ class Gen(object):
       name = self.fresh(prefix or {'K': 'x', 'U': 'u', 'W': 'w'}[kn])
     v = Var(name, kind, kn, role, fn)
     fn.vars[name] = v
+    self.kn['%s:%s' % (self.qual(fn), name)] = kn
     return v
+
+  @staticmethod
+  def qual(fn):
+    q = fn.name
+    while fn.parent is not None:
+      fn = fn.parent
+      q = fn.name + '.' + q
+    return q
 
   def assignable(self, fn, pred):
     out = [v for n, v in sorted(fn.vars.items()) if v.role in ('local', 'param') and pred(v)]
@@ -1086,10 +1118,6 @@ class Gen(object):
       return ['%s = %s = %s' % (v.name, v2.name, e)]
     fn.bound.add(v.name)
     return ['%s = %s' % (v.name, e)]
-
-  def _nonlocal_ok(self, fn, v):
-    """May this function rebind v (declared nonlocal here) with a value of another type?"""
-    return True
 
   def stmt_assign_existing(self, fn, d, only=None):
     cands = only if only is not None else self.assignable(fn, lambda v: v.kn in ('K', 'U'))
@@ -1204,6 +1232,7 @@ class Gen(object):
     self.note('stmt:while')
     ctr = Var(self.fresh('i'), 'I', 'K', 'counter', fn)
     fn.vars[ctr.name] = ctr
+    self.kn['%s:%s' % (self.qual(fn), ctr.name)] = 'K'
     fn.bound.add(ctr.name)
     lines = ['%s = 0' % ctr.name]
     test = '%s < %d' % (ctr.name, self.i(0, 3))
@@ -1276,11 +1305,13 @@ class Gen(object):
       if self.chance(60):
         kind = self.pick(['I', 'F', 'B', 'S', 'L', ('O', 2)])
         g.vars[pname] = Var(pname, kind, 'K', 'param', g)
+        self.kn['%s:%s' % (self.qual(g), pname)] = 'K'
         params.append((pname, kind, True))
         psrc.append('%s: %s' % (pname, CLSNAME[kind]))
       else:
         kind = self.pick(['N', 'A', 'S', 'I'])
         g.vars[pname] = Var(pname, kind, 'U', 'param', g)
+        self.kn['%s:%s' % (self.qual(g), pname)] = 'U'
         params.append((pname, kind, False))
         psrc.append(pname)
       g.bound.add(pname)
@@ -1288,7 +1319,8 @@ class Gen(object):
     for v in [g.avail_free[n] for n in sorted(g.avail_free)]:
       if len(nl) >= 2 or v.role not in ('local', 'param') or v.kn == 'W' or not self.chance(25):
         continue
-      if not (v.kn == 'U' or is_exact(v.kind)) and not self.want('no_nonlocal_retype', 60):
+      safe = is_exact(v.kind) or (v.kn == 'U' and 'no_unknown_store_to_typed_name' in self.excl)
+      if not safe and not self.want('no_nonlocal_retype', 60):
         continue
       nl.append(v)
     for v in nl:
@@ -1459,6 +1491,7 @@ class Gen(object):
       if kn == 'U':
         unknown.append(name)
       top.vars[name] = Var(name, k, kn, 'param', top)
+      self.kn['prog:' + name] = kn
       top.bound.add(name)
       names.append(name)
     lines, term = self.block(top, 0, self.budget, False, top=True)
@@ -1468,7 +1501,7 @@ class Gen(object):
     inputs = []
     for _ in range(self.i(2, 4)):
       inputs.append('(' + ', '.join(self.lit(k) for k in kinds) + ',)')
-    return {'src': src, 'inputs': inputs, 'opts': {'unknown_args': unknown}, 'meta': dict(self.meta)}
+    return {'src': src, 'inputs': inputs, 'opts': {'unknown_args': unknown}, 'meta': dict(self.meta), 'kn': dict(self.kn)}
 
 
 @st.composite
@@ -1502,6 +1535,8 @@ def shard(ctx, acc):
   b = ctx.budget
   n = ctx.share('programs')
   seen = set()
+  cfg_ = gen_cfg(b)
+  strict = set(cfg_['excl']) == set(EXCL)
 
   def body(prog):
     case = {'src': prog['src'], 'inputs': prog['inputs'], 'opts': prog['opts']}
@@ -1511,7 +1546,7 @@ def shard(ctx, acc):
       return
     seen.add(key)
     try:
-      fails, info = run_case(case)
+      fails, info = run_case(case, prog.get('kn') if strict else None)
     except SyntaxError as e:
       acc.count('generator_slip:syntax')
       acc.notes.append('generator produced invalid source: %r\n%s' % (e, prog['src']))
@@ -1522,7 +1557,12 @@ def shard(ctx, acc):
         acc.count(k, v)
       else:
         classes.append(k if k.startswith('has:') else 'has:' + k)
-    for r in set(info['raised']):
+    if info.get('kn_mismatch'):
+      # the generator mispredicted what the inference can know (a slip of the check, not of malt); the oracle still ran
+      classes.append('generator_slip:knownness')
+      if len(acc.notes) < 5:
+        acc.notes.append('knownness slip: %s\n%s' % (info['kn_mismatch'][:3], case['src']))
+    for r in sorted(set(info['raised'])):
       classes.append('run_raised:' + r)
     if not info['raised']:
       classes.append('all_runs_completed')
@@ -1551,17 +1591,18 @@ def shard(ctx, acc):
     for bkt, d in fails:
       acc.fail(bkt, case, d)
 
-  common.hyp_run(ctx, programs(gen_cfg(b)), body, n)
+  common.hyp_run(ctx, programs(cfg_), body, n)
 
 
 def shrink(case, bucket, deadline):
   """Statement-level ddmin; a candidate that newly raises at run time (a deleted binding) is rejected so that the shrunk case
   stays inside the generated class."""
-  allowed = set(run_case(case)[1]['raised'])
+  fails0, info0 = run_case(case)
+  allowed, buckets0 = set(info0['raised']), set(b for b, _ in fails0)
 
   def rp(c):
     fails, info = run_case(c)
-    if not set(info['raised']) <= allowed:
+    if not set(info['raised']) <= allowed or not set(b for b, _ in fails) <= buckets0:
       return []
     return [{'bucket': b, 'detail': d} for b, d in fails]
 
